@@ -1,2 +1,7 @@
+import EchoModel.C01
+import EchoModel.C02
 import EchoModel.C14
+import EchoModel.Router
+import EchoModel.RouterSpec
+import EchoModel.RouterWire
 import EchoModel.Wire
